@@ -226,6 +226,15 @@ func (e *Engine) buildCell(s *State, c emitCell) *cellObjs {
 	}
 	inSet(Sym("in.cfg.ListPrefix", SStr), "u8", "u16", "u32", "u64")
 	inSet(Sym("in.cfg.StrPrefix", SStr), "u8", "u16", "u32", "u64")
+	// model invariants the visitor establishes (proved there: AddPacket rejects duplicate packet names,
+	// VisitPacketDefinition returns pairwise distinct field names — C12 D2 / D7)
+	for _, n := range []string{"A", "B"} {
+		s.assume(Ne(Sym("in.p.Name", SStr), Str(n)))
+	}
+	for _, n := range []string{"in.k.Name", "in.l.Name", "in.g.Name", "in.t.Name"} {
+		s.assume(Ne(Sym("in.f.Name", SStr), Sym(n, SStr)))
+	}
+	s.assume(Ne(Sym("in.k.Name", SStr), Sym("in.l.Name", SStr)))
 	// model with two auxiliary packets A and B
 	o.model = e.newObj(s, mT)
 	pmT := types.NewMap(strT, types.NewPointer(pT))
@@ -365,6 +374,10 @@ func (e *Engine) buildCell(s *State, c emitCell) *cellObjs {
 	}
 	e.setF(s, o.model, mT, "RootPacket", o.pkt)
 	e.mapStore(s, pmT, pm, Value{Sym("in.p.Name", SStr)}, Value{o.pkt})
+	// the cell packet is neither A nor B (assumed above): keep their entries on top of the store chain so
+	// that a lookup of "A" / "B" resolves without a case split on the symbolic name
+	e.mapStore(s, pmT, pm, Value{Str("A")}, Value{pa})
+	e.mapStore(s, pmT, pm, Value{Str("B")}, Value{pb})
 	e.setF(s, o.model, mT, "Packets", e.sliceOf(s, types.NewPointer(pT), Value{pa}, Value{pb}, Value{o.pkt})...)
 	hg := s.newAlloc("hasGen")
 	o.gGo = Value{o.model}
